@@ -21,7 +21,7 @@
  * Oracle (statement only): ASan-clean on exact-size heap blocks (packet copy without slack, PCM block of exactly
  * frame_size*channels samples), no crash / hardening abort / CPU-timeout, return in {documented negative codes except
  * OPUS_INTERNAL_ERROR} or 0<n<=frame_size, float samples finite, and  RFC-valid framing + enough capacity (fec=0)
- * => n == announced duration == OPUS_GET_LAST_PACKET_DURATION.
+ * => n == announced duration == OPUS_GET_LAST_PACKET_DURATION; RFC-valid framing + fec=1 + a count returned => OPUS_GET_LAST_PACKET_DURATION == that count.
  * Outside the claim (G5): frame_size*channels beyond one second; not generated.
  */
 #include <stdarg.h>
@@ -83,7 +83,9 @@ static int run_decode(const cfg_t *c,OpusDecoder *d,const char *ctx,int api,cons
             else if (opus_decoder_ctl(d,OPUS_GET_LAST_PACKET_DURATION(&dur))!=OPUS_OK || dur!=D) FAIL("valid_framing_last_duration",CALLDESC " announced=%ld last_packet_duration=%d",CALLARGS,D,(int)dur);
          } }
    }
-   if (ret>0){ opus_int32 dur=-1; opus_decoder_ctl(d,OPUS_GET_LAST_PACKET_DURATION(&dur)); if(dur!=ret) MC_INC(c_adv_lastdur);       /* advisory: not in the statement for PLC/FEC */
+   if (ret>0 && p && len>0 && fec!=0){ rfc_pkt m; rfc_parse(p,len,0,&m);      /* FEC call on a validly framed packet: the count returned is what the query then reports */
+      if (m.ok){ opus_int32 dur=-1; if (opus_decoder_ctl(d,OPUS_GET_LAST_PACKET_DURATION(&dur))!=OPUS_OK || dur!=ret) FAIL("valid_framing_last_duration",CALLDESC " last_packet_duration=%d",CALLARGS,(int)dur); } }
+   if (ret>0){ opus_int32 dur=-1; opus_decoder_ctl(d,OPUS_GET_LAST_PACKET_DURATION(&dur)); if(dur!=ret) MC_INC(c_adv_lastdur);       /* advisory: not in the statement for PLC (null packet) calls */
       if ((p==NULL||len==0) && ret!=fs) MC_INC(c_adv_plc);
       { uint64_t h=mc_mix(mc_mix(c->Fs,c->ch),mc_mix(api,fec)); h=mc_mix(h,(p&&len>0)?p[0]:0x1FF); h=mc_mix(h,ret); h=mc_mix(h,len>2?3:len);
         if (mirror_ok){ const odec_mirror *o=(const odec_mirror*)d; h=mc_mix(h,o->prev_mode*4+o->prev_redundancy); }
